@@ -116,10 +116,13 @@ def part_read(sh, res):
     policy, dlm = sh['policy']
     cases, meta = [], []
     for has_header in (False, True):
-        for comment in (None, '#'):
+        for comment in (None, '#', '', '##'):
             for text in strings(syms, sh['maxlen'], sh['minlen']):
                 if sh['first'] is not None and not text.startswith(sh['first']):
                     continue
+                if comment in ('', '##') and len(text) > sh['maxlen'] - 1:
+                    continue      # the empty prefix (= no comment lines at all) and a two-character prefix: one symbol below the bound
+                res.feat('reader_comment_prefix_%s' % {None: 'none', '#': 'hash', '': 'empty', '##': 'two_chars'}[comment])
                 data = text.encode('utf-8')
                 for mode in ('bulk', 'stream'):
                     c = {'op': 'read', 'mode': mode, 'encoding': 'utf-8', 'dlm': dlm, 'policy': policy, 'has_header': has_header, 'comment_prefix': comment}
@@ -149,6 +152,51 @@ def part_read(sh, res):
             res.violation('reader-disagreement', {'kind': 'read', 'text': text, 'policy': policy, 'dlm': dlm, 'has_header': has_header, 'comment': comment, 'js_mode': mode}, {'python': p}, {'js': j})
     if cases:
         res.sample({'read': {'text': meta[len(meta) // 2][0], 'policy': policy}})
+
+
+def part_bytes(sh, res):
+    """byte-level files: every byte string up to the bound over {a, comma, LF, quote, the bytes of a 2-byte and a 3-byte character, 0xFF} - valid, truncated and
+    invalid UTF-8 at every position incl. the very end of the input - read as utf-8 and as latin-1/binary by both readers (JS in bulk and stream mode)"""
+    rc, eng = tree.csvmod(), tree.engine()
+    alpha = [0x61, 0x2c, 0x0a, 0x22, 0xc3, 0xa9, 0xe2, 0x82, 0xac, 0xff]
+    cases, meta = [], []
+    for n in range(0, sh['maxlen'] + 1):
+        for tup in itertools.product(alpha, repeat=n):
+            if n and tup[0] != sh['first']:
+                continue
+            if n == 0 and sh['first'] != alpha[0]:
+                continue
+            data = bytes(tup)
+            for enc_py, enc_js in (('utf-8', 'utf-8'), ('latin-1', 'binary')):
+                for policy, dlm in (('simple', ','), ('quoted_rfc', ',')):
+                    for mode in ('bulk', 'stream'):
+                        c = {'op': 'read', 'mode': mode, 'encoding': enc_js, 'dlm': dlm, 'policy': policy, 'has_header': False, 'comment_prefix': None}
+                        if mode == 'bulk':
+                            c['hex'] = data.hex()
+                        else:
+                            c['pieces'] = [data.hex()] if data else []
+                        cases.append(c)
+                        meta.append((data, enc_py, policy, dlm, mode))
+    outs = js.run_batch(cases)
+    cache = {}
+    for (data, enc_py, policy, dlm, mode), out in zip(meta, outs):
+        key = (data, enc_py, policy)
+        if key not in cache:
+            cache[key] = norm_py(c12.read_all(rc, eng, io.BytesIO(data), enc_py, dlm, policy, False, None, 1024))
+        p = cache[key]
+        j = norm_js(out, False)
+        res.evaluations += 1
+        res.traces += 1
+        res.states += 1
+        res.transitions += 1
+        res.feat('byte_level_reader_cases')
+        if p['error']:
+            res.nontrivial += 1
+            res.feat('byte_level_undecodable')
+        if p != j:
+            res.violation('reader-disagreement', {'kind': 'read-bytes', 'hex': data.hex(), 'encoding': enc_py, 'policy': policy, 'dlm': dlm, 'js_mode': mode}, {'python': p}, {'js': j})
+    if cases:
+        res.sample({'read_bytes': meta[len(meta) // 2][0].hex()})
 
 
 def part_cross(sh, res):
@@ -279,7 +327,7 @@ def part_header(sh, res):
 
 def run_shard(sh):
     res = core.Result()
-    {'split': part_split, 'quote': part_quote, 'read': part_read, 'cross': part_cross, 'header': part_header}[sh['part']](sh, res)
+    {'split': part_split, 'quote': part_quote, 'read': part_read, 'bytes': part_bytes, 'cross': part_cross, 'header': part_header}[sh['part']](sh, res)
     return res
 
 
@@ -303,6 +351,8 @@ def main(tier, seed):
         if cfg[1] == '§' or cfg[0] == 'monocolumn':
             continue
         shards.append({'part': 'cross', 'o': o, 'cfg': cfg, 'pair_limit': 200 if T else 40})
+    for b in (0x61, 0x2c, 0x0a, 0x22, 0xc3, 0xa9, 0xe2, 0x82, 0xac, 0xff):
+        shards.append({'part': 'bytes', 'first': b, 'maxlen': 5 if T else 4})
     shards.append({'part': 'header', 'seed': seed, 'maxn': 2})
     shards.append({'part': 'header', 'seed': seed, 'maxn': 2, 'nasty': True})
     shards.append({'part': 'header', 'seed': seed, 'maxn': 2, 'wide': True})
@@ -310,11 +360,11 @@ def main(tier, seed):
         shards.append({'part': 'header', 'seed': seed + 1, 'maxn': 2})
     res = core.run_shards('vf.checks.c18', shards)
     return core.finish(PID, tier, seed, res, t0,
-        rule='every case is executed by both implementations: all lines / fields / files up to the length bounds over the class alphabets x delimiters x policies x comment prefix x header (JS reader in bulk and stream mode), '
+        rule='every case is executed by both implementations: all lines / fields / files up to the length bounds over the class alphabets x delimiters x policies x comment prefix (none, #, empty, ##) x header (JS reader in bulk and stream mode), every byte string up to length 4-5 over 10 bytes (valid / truncated / invalid UTF-8) as utf-8 and latin-1, '
              'cross round trips on representable tables, header of all language-neutral select lists of <= 2 items; non-trivial = the line contains a quote / the field needs quoting / the file yields a warning or error / a header is produced',
         assumptions=['the quantifier\'s "random longer Unicode inputs" is not imitated by sampling; the seed rotates the ordinary character instead', 'header vocabulary restricted to forms both header parsers are specified for'],
         extra={'bounds': {'split': 8 if T else 7, 'quote': 6 if T else 5, 'read': 6 if T else 5}},
-        min_features={'split_cases': 50000, 'quote_cases': 10000, 'reader_cases': 100000, 'reader_cases_with_warning_or_error': 10000, 'cross_py_write_js_read': 1000, 'cross_js_write_py_read': 1000, 'header_cases': 500})
+        min_features={'split_cases': 50000, 'quote_cases': 10000, 'reader_cases': 100000, 'reader_cases_with_warning_or_error': 10000, 'cross_py_write_js_read': 1000, 'cross_js_write_py_read': 1000, 'header_cases': 500, 'byte_level_reader_cases': 50000, 'byte_level_undecodable': 10000, 'reader_comment_prefix_empty': 5000, 'reader_comment_prefix_two_chars': 5000})
 
 
 def replay(rep):
